@@ -27,11 +27,19 @@
 
 #include "snoopy.h"
 
+#include <errno.h>
 #include <limits.h>
 #include <pwd.h>
 #include <stdio.h>
 #include <stdlib.h>
 #include <unistd.h>
+
+
+
+/*
+ * Local defines
+ */
+#define   SNOOPY_UTIL_PWD_BUF_MAX_SIZE   1048576   // Stop enlarging the lookup buffer here
 
 
 
@@ -54,6 +62,7 @@ char * snoopy_util_pwd_convertUidToUsername (uid_t uid)
     char          *buffpwd_uid = NULL;
     long           buffpwdsize_uid = 0;
     char          *username = NULL;
+    int            retVal   = 0;
 
 
     /* Allocate memory */
@@ -75,8 +84,21 @@ char * snoopy_util_pwd_convertUidToUsername (uid_t uid)
     username[0] = '\0';
 
 
-    /* Try uid->username conversion */
-    if (0 != getpwuid_r(uid, &pwd, buffpwd_uid, buffpwdsize_uid, &pwd_uid)) {
+    /* Try uid->username conversion - a long entry needs a larger buffer than the suggested initial size */
+    while (ERANGE == (retVal = getpwuid_r(uid, &pwd, buffpwd_uid, buffpwdsize_uid, &pwd_uid))) {
+        char *biggerBuf;
+
+        if (buffpwdsize_uid >= SNOOPY_UTIL_PWD_BUF_MAX_SIZE) {
+            break;
+        }
+        buffpwdsize_uid *= 2;
+        biggerBuf = realloc(buffpwd_uid, buffpwdsize_uid);
+        if (NULL == biggerBuf) {
+            break;
+        }
+        buffpwd_uid = biggerBuf;
+    }
+    if (0 != retVal) {
         free(buffpwd_uid);
         free(username);
         return NULL;
